@@ -2253,11 +2253,14 @@ class tensor:
 
         # One value for all subscripts or one value each: checked before any
         # resizing so that a failed assignment leaves the tensor as it was
-        if np.ndim(value) <= 1 and np.size(value) not in (1, key.shape[0]):
+        if np.size(value) not in (1, key.shape[0]):
             raise ValueError(
                 f"Number of values ({np.size(value)}) must be 1 or match the number "
                 f"of subscripts ({key.shape[0]})"
             )
+        if np.ndim(value) > 1:
+            # A column (or row) of values, one per subscript
+            value = np.reshape(value, -1)
 
         # Will the size change? If so we first need to resize x
         n = self.ndims
